@@ -31,6 +31,7 @@ import (
 	_ "github.com/multiformats/go-multiaddr-dns"
 
 	"github.com/pkg/errors"
+	codec "github.com/ugorji/go/codec"
 	proto "google.golang.org/protobuf/proto"
 )
 
@@ -391,6 +392,63 @@ func (maddr Multiaddr) Value() multiaddr.Multiaddr {
 	return maddr.Multiaddr
 }
 
+// OriginList is a list of multiaddresses which knows how to serialize and
+// deserialize itself (multiaddr.Multiaddr is an interface: neither
+// encoding/json nor the msgpack codec used for RPC and the Raft log can
+// decode into it). It uses the same wire forms as a list of Multiaddr and
+// any []multiaddr.Multiaddr value can be assigned to it.
+type OriginList []multiaddr.Multiaddr
+
+func (ol OriginList) wrap() []Multiaddr {
+	if ol == nil {
+		return nil
+	}
+	w := make([]Multiaddr, len(ol))
+	for i, o := range ol {
+		w[i] = NewMultiaddrWithValue(o)
+	}
+	return w
+}
+
+func (ol *OriginList) unwrap(w []Multiaddr) {
+	if w == nil {
+		*ol = nil
+		return
+	}
+	l := make(OriginList, len(w))
+	for i, o := range w {
+		l[i] = o.Value()
+	}
+	*ol = l
+}
+
+// MarshalJSON returns a JSON list of multiaddress strings.
+func (ol OriginList) MarshalJSON() ([]byte, error) {
+	return json.Marshal(ol.wrap())
+}
+
+// UnmarshalJSON parses a JSON list of multiaddress strings.
+func (ol *OriginList) UnmarshalJSON(data []byte) error {
+	var w []Multiaddr
+	if err := json.Unmarshal(data, &w); err != nil {
+		return err
+	}
+	ol.unwrap(w)
+	return nil
+}
+
+// CodecEncodeSelf implements codec.Selfer.
+func (ol OriginList) CodecEncodeSelf(e *codec.Encoder) {
+	e.MustEncode(ol.wrap())
+}
+
+// CodecDecodeSelf implements codec.Selfer.
+func (ol *OriginList) CodecDecodeSelf(d *codec.Decoder) {
+	var w []Multiaddr
+	d.MustDecode(&w)
+	ol.unwrap(w)
+}
+
 // ID holds information about the Cluster peer
 type ID struct {
 	ID                    peer.ID     `json:"id" codec:"i,omitempty"`
@@ -576,7 +634,7 @@ type PinOptions struct {
 	ExpireAt             time.Time             `json:"expire_at" codec:"e,omitempty"`
 	Metadata             map[string]string     `json:"metadata" codec:"m,omitempty"`
 	PinUpdate            cid.Cid               `json:"pin_update,omitempty" codec:"pu,omitempty"`
-	Origins              []multiaddr.Multiaddr `json:"origins" codec:"g,omitempty"`
+	Origins              OriginList            `json:"origins" codec:"g,omitempty"`
 }
 
 // Equals returns true if two PinOption objects are equivalent. po and po2 may
